@@ -496,6 +496,7 @@ def _case_ops(ctx, c):
         R0 = U[idl]; s0, _ = col_stats(R0)
         return check_roundtrip(ctx, o, R0, s0, mags, 0, site0, coords, roweps=reps(idl))
 
+    demoted = [None]   # (site, input class) of the operation that first left float64/int64 taxa in a single-precision matrix
     kept = []   # earlier copies of the live matrix: {"obj", "ids", "kind", "tag"}; an operation on one object must never change another
 
     def rejudge(site_, k_):
@@ -687,7 +688,18 @@ def _case_ops(ctx, c):
                      source_types="".join(src[lids].tolist()), result_dtype=str(getattr(obj.mat, "dtype", None)),
                      raw_row=R[i] if R.size else None, unscaled_row=un[i] if un.ndim == 2 and un.shape[0] > i else None,
                      location=obj.location, scale=obj.scale)
-        good = ctx.check("C15.ops", mok and vok, site, "every retained taxon keeps its raw values, missing stays missing", vform,
+        is32 = str(getattr(obj.mat, "dtype", "")) == "float32" and bool(numpy.any(src[lids] != "f"))
+        if is32 and demoted[0] is None:
+            demoted[0] = (site, vform)
+        elif not is32:
+            demoted[0] = None
+        ksite, kform = site, vform
+        if not (mok and vok) and is32 and first and src[lids[first[0]]] != "f" and mok:
+            # a float64/int64 taxon lost precision inside a single-precision matrix: the mechanism is the operation that
+            # put it there (the loss may only become visible at a later step, when the values stop being exactly representable)
+            ksite, kform = demoted[0]
+            w["demoted_to_float32_by"] = ksite
+        good = ctx.check("C15.ops", mok and vok, ksite, "every retained taxon keeps its raw values, missing stays missing", kform,
                          what=None if (mok and vok) else "C15.ops: after %s the matrix no longer reproduces the raw values of its taxa (%s)"
                          % (site, "NaN mask differs" if not mok else "values differ"), witness=w, coords=coords)
         if not inplace:
